@@ -2,11 +2,11 @@
    implementation: committed history + open transactions (write-set model + snapshot) + cursors.
    Physical operations (rotate, flush, compaction, clean reopen) are identities on it. *)
 From Coq Require Import List NArith Arith Bool.
-From SKV Require Import Base.Lex Txn.WriteSet Spec.Store Spec.Cursor.
+From SKV Require Import Base.Lex Txn.WriteSet Spec.Store Spec.Cursor Spec.Versioned.
 Import ListNotations.
 
 Inductive mode := RW | RO | WO.
-Inductive err := EClosed | EReadOnly | EWriteOnly | EEmptyKey | EConflict | ENoSavepoint | ENoTxn | EUnsupported.
+Inductive err := EClosed | EReadOnly | EWriteOnly | EEmptyKey | EConflict | ENoSavepoint | ENoTxn | EUnsupported | ENoVersioning.
 
 Record txn := { t_mode : mode; t_closed : bool; t_snap : nat; t_ws : wset }.
 Record cursor := { c_items : list (bytes * bytes); c_pos : option nat; c_fresh : bool }.
@@ -15,15 +15,18 @@ Record mstate := {
   m_hist : history;
   m_txns : list (nat * txn);        (* transaction id -> txn *)
   m_curs : list (nat * cursor);     (* cursor id -> cursor *)
+  m_clock : N;                      (* the logical clock: timestamp given to commit-time writes *)
+  m_versioning : bool;
 }.
-Definition m0 : mstate := {| m_hist := []; m_txns := []; m_curs := [] |}.
+Definition m0 : mstate := {| m_hist := []; m_txns := []; m_curs := []; m_clock := 0; m_versioning := false |}.
 
 Inductive resp :=
 | ROk
 | RErr (e : err)
 | RVal (v : option bytes)
 | RCur (kv : option (bytes * bytes))
-| RList (l : list (bytes * bytes)).
+| RList (l : list (bytes * bytes))
+| RHist (l : list (bytes * version)).
 
 Fixpoint assoc_get {A} (i : nat) (l : list (nat * A)) : option A :=
   match l with [] => None | (j, a) :: r => if Nat.eqb i j then Some a else assoc_get i r end.
@@ -32,8 +35,8 @@ Fixpoint assoc_set {A} (i : nat) (a : A) (l : list (nat * A)) : list (nat * A) :
 Fixpoint assoc_del {A} (i : nat) (l : list (nat * A)) : list (nat * A) :=
   match l with [] => [] | (j, b) :: r => if Nat.eqb i j then r else (j, b) :: assoc_del i r end.
 
-Definition with_txns (s : mstate) (t : list (nat * txn)) := {| m_hist := m_hist s; m_txns := t; m_curs := m_curs s |}.
-Definition with_curs (s : mstate) (c : list (nat * cursor)) := {| m_hist := m_hist s; m_txns := m_txns s; m_curs := c |}.
+Definition with_txns (s : mstate) (t : list (nat * txn)) := {| m_hist := m_hist s; m_txns := t; m_curs := m_curs s; m_clock := m_clock s; m_versioning := m_versioning s |}.
+Definition with_curs (s : mstate) (c : list (nat * cursor)) := {| m_hist := m_hist s; m_txns := m_txns s; m_curs := c; m_clock := m_clock s; m_versioning := m_versioning s |}.
 Definition set_txn (s : mstate) (i : nat) (t : txn) := with_txns s (assoc_set i t (m_txns s)).
 
 Definition mutable (m : mode) : bool := match m with RO => false | _ => true end.
@@ -50,6 +53,11 @@ Inductive cmd :=
 | Cur (cid : nat) (o : cop)
 | CurClose (cid : nat)
 | Scan (id : nat) (lo hi : option bytes) (backward : bool)
+| SetClock (t : N)
+| SetVersioning (b : bool)
+| GetAt (id : nat) (key : bytes) (T : N)
+| History (id : nat) (lo hi : option bytes) (tomb : bool) (r : option (N * N)) (limit : option nat) (backward : bool)
+| HistoryTsFirst (id : nat) (lo hi : option bytes) (tomb : bool) (r : option (N * N)) (limit : option nat) (backward : bool)
 | Physical                            (* rotate / flush / compact: no effect *)
 | Reopen.                             (* clean close + open: open transactions and cursors end *)
 
@@ -124,7 +132,12 @@ Definition step (s : mstate) (c : cmd) : mstate * resp :=
                                 t_ws := {| ws_map := []; ws_savepoints := ws_savepoints (t_ws t); ws_seqno := ws_seqno (t_ws t) |} |},
                 RErr EConflict)
              else
-               let s1 := {| m_hist := m_hist s ++ [ws_batch (t_ws t)]; m_txns := m_txns s; m_curs := m_curs s |} in
+               (* commit-time writes receive the clock's current timestamp *)
+               let stamped := map (fun w => if N.eqb (b_ts w) COMMIT_TIME
+                                            then {| b_kind := b_kind w; b_key := b_key w; b_val := b_val w; b_ts := m_clock s |}
+                                            else w) (ws_batch (t_ws t)) in
+               let s1 := {| m_hist := m_hist s ++ [stamped]; m_txns := m_txns s; m_curs := m_curs s;
+                            m_clock := m_clock s; m_versioning := m_versioning s |} in
                (set_txn s1 id {| t_mode := t_mode t; t_closed := true; t_snap := t_snap t;
                                  t_ws := {| ws_map := []; ws_savepoints := ws_savepoints (t_ws t); ws_seqno := ws_seqno (t_ws t) |} |}, ROk)
            end
@@ -163,6 +176,48 @@ Definition step (s : mstate) (c : cmd) : mstate * resp :=
            | _ => let l := range_view (txn_view s t) lo hi in (s, RList (if backward then rev l else l))
            end
     end
+  | SetClock t => ({| m_hist := m_hist s; m_txns := m_txns s; m_curs := m_curs s; m_clock := t; m_versioning := m_versioning s |}, ROk)
+  | SetVersioning b => ({| m_hist := m_hist s; m_txns := m_txns s; m_curs := m_curs s; m_clock := m_clock s; m_versioning := b |}, ROk)
+  | GetAt id key T =>
+    match assoc_get id (m_txns s) with
+    | None => (s, RErr ENoTxn)
+    | Some t =>
+      if t_closed t then (s, RErr EClosed)
+      else match key with
+           | [] => (s, RErr EEmptyKey)
+           | _ => match t_mode t with
+                  | WO => (s, RErr EWriteOnly)
+                  | _ =>
+                    if negb (m_versioning s) then (s, RErr ENoVersioning) else
+                    (* read-your-writes as Transaction::get_at does it: a pending hard delete hides
+                       everything; a pending entry whose timestamp (0 = commit time) is <= T answers *)
+                    match ws_last (t_ws t) key with
+                    | Some e =>
+                      if is_hard_delete (e_kind e) then (s, RVal None)
+                      else if N.leb (e_ts e) T then (s, RVal (if is_tombstone (e_kind e) then None else e_val e))
+                      else (s, RVal (spec_get_at (m_hist s) (t_snap t) key T))
+                    | None => (s, RVal (spec_get_at (m_hist s) (t_snap t) key T))
+                    end
+                  end
+           end
+    end
+  | History id lo hi tomb r limit backward =>
+    match assoc_get id (m_txns s) with
+    | None => (s, RErr ENoTxn)
+    | Some t =>
+      if t_closed t then (s, RErr EClosed)
+      else match t_mode t with
+           | WO => (s, RErr EWriteOnly)
+           | _ => if negb (m_versioning s) then (s, RErr ENoVersioning)
+                  else (s, RHist (spec_history (m_hist s) (t_snap t) lo hi tomb r limit backward))
+           end
+    end
+  | HistoryTsFirst id lo hi tomb r limit backward =>
+    (* classifier for the known class F22 (not a specification) *)
+    match assoc_get id (m_txns s) with
+    | None => (s, RErr ENoTxn)
+    | Some t => (s, RHist (spec_history_tsfirst (m_hist s) (t_snap t) lo hi tomb r limit backward))
+    end
   | Physical => (s, ROk)
-  | Reopen => ({| m_hist := m_hist s; m_txns := []; m_curs := [] |}, ROk)
+  | Reopen => ({| m_hist := m_hist s; m_txns := []; m_curs := []; m_clock := m_clock s; m_versioning := m_versioning s |}, ROk)
   end.
